@@ -28,8 +28,33 @@ def q(x):
     return '%d/%d' % (x.p, x.q)
 
 
+class MS(list):
+    """a list of substitutions: gq(x, MS([...])) returns the MV of the values, one per substitution"""
+
+
+class MV(list):
+    """the values of one quantity at the sample points of a symbolic angular frequency"""
+
+
+def pick(obj, i):
+    """the dump `obj` with every MV replaced by its i-th element"""
+    if isinstance(obj, MV):
+        return obj[i]
+    if isinstance(obj, dict):
+        return {k: pick(v, i) for k, v in obj.items()}
+    if isinstance(obj, list):
+        return [pick(v, i) for v in obj]
+    return obj
+
+
 def gq(x, sub=None):
     """exact Gaussian rational 're,im' of a sympy/lcapy expression (after substitution), else None"""
+    if isinstance(sub, MS):
+        try:
+            x = sp.sympify(getattr(x, 'sympy', x))
+        except Exception:
+            return MV([None for _ in sub])
+        return MV([gq(x, s_) for s_ in sub])
     try:
         x = sp.sympify(getattr(x, 'sympy', x))
         if sub:
@@ -220,6 +245,9 @@ def run_circuit(case):
         if isinstance(kind, str):
             continue
         w = sp.nsimplify(sp.sympify(kind))
+        if not w.is_Rational and case.get('omega_points'):
+            sym_kind(c, case, kind, sn, names, srcnames, res)
+            continue
         if not w.is_Rational or case.get('sym_subs'):
             if case.get('omega_subs') or (case.get('sym_subs') and w.is_Rational):
                 # symbolic angular frequency / symbolic component or source values: report the phasors with the
@@ -351,7 +379,9 @@ def run_circuit(case):
                 except Exception as e:
                     out['transfer'] = {'error': type(e).__name__ + ': ' + str(e)[:150]}
         res['ac'][ws] = out
-    if case.get('want_time', True) and not case.get('omega_subs') and not case.get('sym_subs'):
+    if case.get('omega_points'):
+        sym_time(c, case, names, res)
+    elif case.get('want_time', True) and not case.get('omega_subs') and not case.get('sym_subs'):
         oms = list(res['ac'].keys())
         for nm in names[:case.get('ntime', 4)]:
             try:
@@ -359,6 +389,164 @@ def run_circuit(case):
             except Exception as e:
                 res['time'][nm] = {'error': type(e).__name__ + ': ' + str(e)[:100]}
     return res
+
+
+def rdeg(x, sy):
+    """(degree of numerator) + (degree of denominator) of a rational function of the symbol sy; None when it is not one"""
+    x = sp.sympify(getattr(x, 'sympy', x))
+    if not x.has(sy):
+        return 0
+    n, d = sp.fraction(sp.cancel(sp.together(x)))
+    pn, pd = sp.Poly(n, sy), sp.Poly(d, sy)
+    return int(pn.degree()) + int(pd.degree())
+
+
+def sym_kind(c, case, kind, sn, names, srcnames, res):
+    """an ac sub-netlist whose angular frequency is a SYMBOL: everything the numeric route dumps, as rational
+    functions of the symbol evaluated at the sample points case['omega_points'][symbol] (as many of them as the
+    degree bound asks for); one result per point under res['ac'][<value>] with 'sympoint' = {sym, i, ...}"""
+    name = str(kind)
+    pts = case['omega_points'].get(name)
+    if not kind.is_Symbol or not pts:
+        res['ac'][name] = {'error': 'symbolic omega without sample points'}
+        return
+    pts = [sp.Rational(p) for p in pts]
+    mna = sn.mna
+    A, Z = mna._A, mna._Z
+    # degree bounds (numerator + denominator degrees in the symbol)
+    try:
+        dA = max([rdeg(A[i, k], kind) for i in range(A.shape[0]) for k in range(A.shape[1])] + [rdeg(Z[i], kind) for i in range(Z.shape[0])])
+        x = matrix_solve(A, Z, method=str(sn.solver_method))
+        dx = max([rdeg(x[i], kind) for i in range(x.shape[0])] + [0])
+    except Exception as e:
+        res['ac'][name] = {'error': 'degree: ' + type(e).__name__ + ': ' + str(e)[:100]}
+        return
+    # entries: real entry (dA) against a model entry a + b (j w) + c / (j w) (degrees 2 + 1): cross degree <= dA + 3;
+    # solutions: ac solution against the s-domain solution at j w, both of degree <= dx: cross degree <= 2 dx
+    bound = max(dA + 3, 2 * dx)
+    npts = min(len(pts), bound + 1)
+    pts = pts[:npts]
+    acsub = MS([{kind: p} for p in pts])
+    ssub = MS([{ssym: sp.I * p} for p in pts])
+    out = {'sub': dump_sub(sn, acsub)}
+    lines = []
+    for l in case['netlist']:
+        nm = l.split()[0]
+        if nm in srcnames:
+            P = srcnames[nm]['P'].get(name, ['0', '0'])
+            lines.append('%s s %s' % (srcnames[nm]['prefix'], cval(P[0], P[1])))
+        else:
+            lines.append(l)
+    try:
+        cs = mk(lines)
+        ks = [k for k in cs.sub.keys()]
+        if len(ks) != 1 or not isinstance(ks[0], str):
+            out['s'] = {'error': 'unexpected kinds %s' % ks}
+        else:
+            out['s'] = dump_sub(cs.sub[ks[0]], ssub)
+    except Exception as e:
+        out['s'] = {'error': type(e).__name__ + ': ' + str(e)[:200]}
+    unit = []
+    for d in case['src']:
+        P = d['P'].get(name)
+        if not P or (sp.Rational(P[0]) == 0 and sp.Rational(P[1]) == 0):
+            continue
+        ul = []
+        for l in case['netlist']:
+            nm = l.split()[0]
+            if nm in srcnames:
+                ul.append('%s s %s' % (srcnames[nm]['prefix'], '1' if nm == d['name'] else '0'))
+            else:
+                ul.append(l)
+        u = {'name': d['name'], 'V': {}, 'I': {}}
+        try:
+            cu = mk(ul)
+            for nm in names:
+                try:
+                    u['V'][nm] = gq(cu[nm].V(lap_s), ssub)
+                except Exception as e:
+                    u['V'][nm] = None
+                try:
+                    u['I'][nm] = gq(cu[nm].I(lap_s), ssub)
+                except Exception as e:
+                    u['I'][nm] = None
+        except Exception as e:
+            u['error'] = type(e).__name__ + ': ' + str(e)[:200]
+        unit.append(u)
+    out['unit'] = unit
+    out['V'], out['I'] = {}, {}
+    for nm in names:
+        for attr, dst in (('V', out['V']), ('I', out['I'])):
+            try:
+                sup = getattr(c[nm], attr)
+                val = None
+                for k, v in sup.items():
+                    if not isinstance(k, str) and sp.sympify(k) == kind:
+                        val = v
+                dst[nm] = gq(val, acsub) if val is not None else '0/1,0/1'
+            except Exception as e:
+                dst[nm] = {'error': type(e).__name__ + ': ' + str(e)[:100]}
+    imm = {}
+    for nm, e in sn.elements.items():
+        if type(e.cpt).__name__ in ('R', 'G', 'L', 'C', 'CPE', 'Y', 'Z', 'NR'):
+            try:
+                imm[nm] = {'Zac': gq(e.Z, acsub), 'Yac': gq(e.Y, acsub), 'Zpub': None,
+                           'Zs': gq(e.cpt.Z(lap_s), ssub), 'Ys': gq(e.cpt.Y(lap_s), ssub)}
+            except Exception as ex:
+                imm[nm] = {'error': type(ex).__name__}
+    out['imm'] = imm
+    if case.get('transfer'):
+        try:
+            with cpu_limit(int(case.get('transfer_cpu_s', 15))):
+                out['transfer_ladder'] = c._ladder(*case['transfer']) is not None
+        except CpuTimeout as e:
+            out['transfer'] = {'error': 'hang: the ladder search of transfer() does not terminate', 'hang': True, 'where': e.where}
+        except Exception:
+            out['transfer_ladder'] = False
+        if 'transfer' not in out:
+            try:
+                from lcapy import expr as lexpr
+                with cpu_limit(int(case.get('transfer_cpu_s', 15)) * 4):
+                    H = c.transfer(*case['transfer'])
+                # H(j w) with the SYMBOLIC angular frequency, through the public call
+                out['transfer'] = gq(H(j * lexpr(kind)), acsub)
+                out['transfer_s'] = gq(H, ssub)
+            except CpuTimeout as e:
+                out['transfer'] = {'error': 'hang: transfer() used more than its CPU budget', 'hang': True, 'where': e.where}
+            except Exception as e:
+                out['transfer'] = {'error': type(e).__name__ + ': ' + str(e)[:150]}
+    for i, p in enumerate(pts):
+        o = pick(out, i)
+        o['sympoint'] = {'sym': name, 'i': i, 'n': npts, 'bound': bound, 'deg_entries': dA, 'deg_solution': dx,
+                         'points': [q(x_) for x_ in pts]}
+        res['ac'][q(p)] = o
+
+
+def sym_time(c, case, names, res):
+    """v(t) of the first elements with every symbolic angular frequency replaced by its i-th sample value"""
+    op = case['omega_points']
+    n = min(len(v) for v in op.values())
+    res['time_pts'] = {}
+    exprs = {}
+    for nm in names[:case.get('ntime', 3)]:
+        try:
+            exprs[nm] = sp.sympify(c[nm].v.sympy)
+        except Exception as e:
+            exprs[nm] = None
+    for i in range(n):
+        vals = {name: sp.Rational(v[i]) for name, v in op.items()}
+        oms = [q(v) for v in vals.values()]
+        tp = {}
+        for nm, ex in exprs.items():
+            if ex is None:
+                tp[nm] = {'error': 'v(t) unavailable'}
+                continue
+            try:
+                ei = ex.subs({sy: vals[sy.name] for sy in ex.free_symbols if sy.name in vals})
+                tp[nm] = time_parts(ei, oms)
+            except Exception as e:
+                tp[nm] = {'error': type(e).__name__ + ': ' + str(e)[:100]}
+        res['time_pts'][str(i)] = tp
 
 
 def run_phasor(case):
